@@ -341,8 +341,11 @@ DecServer(bs) ==
          ELSE IF p.topic = << >> \/ HasNul(p.topic) THEN [p EXCEPT !.st = "dc"]
          ELSE IF \E k \in 1..Len(p.topic) : p.topic[k] \in {35, 43} THEN [p EXCEPT !.st = "dc"]
          ELSE p
-    ELSE IF t \in {PUBACK, PUBREC, PUBREL, PUBCOMP} THEN AckBody(bs, i, e, t)
-    ELSE IF t \in {SUBACK, UNSUBACK} THEN DecSubAck(bs, i, e, t)
+    \* identifier 0 in an acknowledgement is a protocol error of the broker: don't care
+    ELSE IF t \in {PUBACK, PUBREC, PUBREL, PUBCOMP} THEN
+         LET a == AckBody(bs, i, e, t) IN IF a.st = "ok" /\ a.id = 0 THEN Dc ELSE a
+    ELSE IF t \in {SUBACK, UNSUBACK} THEN
+         LET a == DecSubAck(bs, i, e, t) IN IF a.st = "ok" /\ a.id = 0 THEN Dc ELSE a
     ELSE IF t = PINGRESP THEN IF e < i THEN [st |-> "ok", t |-> PINGRESP] ELSE Bad
     ELSE DecDisconnect(bs, i, e)
 
